@@ -10,8 +10,25 @@ iosim.FakeTransport objects and a scheduler that is entirely under the case's co
   ["T", side]             side's clock runs its due calls (reactor iteration: aggregator flush)
   ["F", side]             side's underlying transport finishes closing (connectionLost) if it was told to close
   ["E", side]             side sees EOF from the peer (peer's transport was told to close, everything read)
-  ["R", side, streaming]  registerProducer of a producer that writes a fixed chunk per resume (oracle-only cases)
+  ["S", side, start, [n1, n2, ...], mode]
+                          the application calls transport.writeSequence(<iterable of the chunks pat(start,n1), pat(start+n1,n2), ...>);
+                          mode = "list" | "tuple" | "gen" (one-shot generator) | "iter" (one-shot iterator).  The chunks are contiguous
+                          pieces of one pattern, so the model line is that of ["W", side, start, n1+n2+...] (writeSequence(seq) ==
+                          write(b"".join(seq)) is the transcription of both writeSequence methods)
+  ["R", side, streaming, start, n, chunks]
+                          registerProducer of a producer that writes a fixed chunk per resume (oracle-only cases); a NON-streaming
+                          producer is really pulled: _PullToPush's cooperator is driven by this side's "T" steps (one pull per tick)
   ["U", side]             unregisterProducer (oracle-only cases)
+  ["Z", side] / ["P", side]   back-pressure of the lower transport: it pauses / resumes the producer registered with it (oracle-only)
+
+cfg[side] may also carry (all oracle-only, the Lean model has no re-entrant applications):
+  "hsL": true             the application calls loseConnection() from handshakeCompleted (after its "hs" write, if any)
+  "react": {"at": m, "w": [start, n] | null, "L": bool, "every": bool}
+                          from dataReceived, once (or on every call if "every") as soon as it has received >= m bytes, the application
+                          writes pat(start, n) and/or calls loseConnection()  (request/response servers, echo; "every" = the first 40 calls)
+  "clw": n                from connectionLost the application writes n bytes and calls loseConnection() (both must be void)
+
+Writes larger than the model's cost cap (incl. > 64000 = _AggregateSmallWrites.MAX_BUFFER_SIZE in one call) are oracle-only.
 
 followed (if "drain") by k+10 rounds of deliver-everything / tick / F / E for both sides.
 """
@@ -34,8 +51,9 @@ from twisted.internet.interfaces import (  # noqa: E402
     IOpenSSLServerConnectionCreator,
     IPushProducer,
 )
+from twisted.internet import _producer_helpers  # noqa: E402
 from twisted.internet.protocol import Factory, Protocol  # noqa: E402
-from twisted.internet.task import Clock  # noqa: E402
+from twisted.internet.task import Clock, Cooperator  # noqa: E402
 from twisted.protocols.tls import (  # noqa: E402
     BufferingTLSTransport,
     TLSMemoryBIOFactory,
@@ -43,13 +61,21 @@ from twisted.protocols.tls import (  # noqa: E402
 )
 from twisted.test.iosim import FakeTransport  # noqa: E402
 
-HEADLINE = ("TwistedProps.C17.app_bytes_intact (+ engine_pair_contract, all_decoded_at_close_notify, app_bytes_exact_when_drained, "
+HEADLINE = ("TwistedProps.C17.app_bytes_intact (+ writeSequence_step, engine_pair_contract, all_decoded_at_close_notify, app_bytes_exact_when_drained, "
             "app_bytes_exact_at_clean_close, app_bytes_exact_after_clean_close, both_transports_closed_at_quiescence_partial, "
             "sender_accounting, receiver_accounting, connectionLost_exactly_once, no_data_after_connectionLost)")
-RULE = ("random schedules of W/L/D/T/F/E steps (see module docstring) for k=2..6 handshake flights, engine record limit "
+RULE = ("random schedules of W/S/L/D/T/F/E steps (see module docstring) for k=2..6 handshake flights, engine record limit "
         "1..255, buffering or plain protocol on either side, optional write from handshakeCompleted; writes of 0..70000 "
-        "bytes around the 2**14 / 64000 / record limits; segment sizes 1..all; always followed by a fair drain; "
-        "distinct = (k, protocol kinds, who closed in which handshake phase, abort?, sizes class, final state)")
+        "bytes around the 2**14 / 64000 / record limits; 40% of the cases make half of their writes through writeSequence (contiguous "
+        "chunks incl. empty ones, as list / tuple / one-shot generator / iterator; model-compared as one write); segment sizes 1..all; "
+        "always followed by a fair drain; plus oracle-only classes: re-entrant applications (write and/or loseConnection from "
+        "handshakeCompleted, from dataReceived once or on every call with replies of 1..100000 bytes, void write+loseConnection from "
+        "connectionLost; half of them request/response shaped), single writes of 64000..130000 bytes behind small ones, producers "
+        "(streaming and really-pulled non-streaming ones, registered before/after the handshake, loseConnection while registered incl. "
+        "during the handshake, back-pressure pause/resume from the lower transport); a watchdog ends a case in which the engine is "
+        "handed more plaintext than the application wrote; "
+        "distinct = (k, protocol kinds, who closed in which handshake phase, abort?, sizes class, writeSequence modes, re-entrant "
+        "reactions, producer kinds, final state)")
 ASSUMES = [
     "pyOpenSSL/OpenSSL are replaced by the FakeEngine (harness/shims/OpenSSL): k>=1 strictly alternating handshake flights, "
     "length-framed records of <=255 payload bytes (record limit 1..255), close_notify; no renegotiation, no alerts other than "
@@ -57,10 +83,18 @@ ASSUMES = [
     "pair and the fake wire (engine_pair_contract)",
     "the underlying transports deliver bytes in order without loss or duplication and call connectionLost once (iosim.FakeTransport "
     "+ the scheduler of this module; the Lean World.step is its transcription)",
-    "applications do not call transport methods re-entrantly from dataReceived/connectionLost (only from handshakeCompleted)",
+    "the Lean model has no re-entrant applications except the write from handshakeCompleted: applications that write / call "
+    "loseConnection from dataReceived, connectionLost or (loseConnection) handshakeCompleted are run on the real code and judged by "
+    "the oracle only (model_line -> None); applications do not call abortConnection and do not raise from their callbacks",
+    "writeSequence(seq) is tied to the model as write(b''.join(seq)) (the case's chunks are contiguous pieces of one pattern, the "
+    "model line is the single write); single writes above _modelCap(recMax) (~71000 bytes at 255) are oracle-only (model cost)",
     "progress (after loseConnection every fair run tells some transport to close and, if the receiver does not close or abort first, "
     "reaches the clean-close point) is NOT proved; it is checked on the real code by the oracle (lost-bytes, not-closed, not-quiescent)",
-    "producers (registerProducer/unregisterProducer) are exercised on the real code by the oracle only; they are not in the Lean model",
+    "producers (registerProducer/unregisterProducer, pause/resume by the lower transport) are exercised on the real code by the oracle "
+    "only; they are not in the Lean model. Non-streaming producers are pulled by a per-side Cooperator driven by the T steps "
+    "(twisted.internet._producer_helpers.cooperate is replaced for the run: one resumeProducing per tick). What a producer (or the "
+    "application while its producer is registered) writes after loseConnection counts as written before it (Twisted keeps the "
+    "connection open until unregisterProducer), except after a loseConnection that aborts (handshake unfinished, nothing written)",
 ]
 TRUSTED = ["harness/shims/OpenSSL (FakeEngine stand-in for pyOpenSSL; the Lean `Eng` is its transcription)",
            "twisted.test.iosim.FakeTransport as the underlying transport"]
@@ -74,9 +108,13 @@ MANIFEST = {
             "connectionLost is delivered exactly when the underlying transport has gone and at most once, nothing is delivered after "
             "it; in every quiescent world where some transport was told to close both transports are closed with one connectionLost "
             "each; model run against the real twisted.protocols.tls on every run; progress towards the clean-close point / towards a "
-            "transport being told to close is checked by the oracle on the real code (partial: not proved).",
+            "transport being told to close is checked by the oracle on the real code (partial: not proved). writeSequence calls are "
+            "model-compared as the write of the joined chunks; re-entrant applications (write/loseConnection from dataReceived, "
+            "handshakeCompleted, connectionLost), producers (push, really-pulled pull, lower-transport back-pressure) and single writes "
+            "of 64000..130000 bytes are run on the real code against the oracle only.",
     "note": "PARTIAL: pyOpenSSL is replaced by a stand-in engine; progress of the handshake/close_notify dance (a loseConnection "
-            "eventually closes a transport; the clean-close point is reached) is oracle-checked, not proved; producers are oracle-only",
+            "eventually closes a transport; the clean-close point is reached) is oracle-checked, not proved; producers, re-entrant "
+            "applications and writes above the model's cost cap are oracle-only",
     "technique": "Lean 4 proof (sender/receiver accounting + channel invariant over records in flight, by induction over schedules; "
                  "monotonicity; quiescence as step fixpoint) + differential tie + oracle",
     "design_ref": "DESIGN.md §7.3 C17",
@@ -100,13 +138,32 @@ def cks(b):
 # ------------------------------------------------------------------------------------------------
 # the real code under a controlled scheduler
 
+class Runaway(Exception):
+    """watchdog: the TLS layer handed the engine more plaintext than its application ever wrote (not an OpenSSL.SSL.Error:
+    nothing in twisted catches it, it ends the case as `!raised Runaway`)"""
+
+
+class _Conn(SSL.Connection):
+    def __init__(self, context, app):
+        SSL.Connection.__init__(self, context, None)
+        self._app = app
+        self._sentN = 0
+
+    def send(self, data):
+        n = SSL.Connection.send(self, data)
+        self._sentN += n
+        if self._sentN > self._app.offered:
+            raise Runaway(f"{self._sentN} plaintext bytes sent, the application wrote {self._app.offered}")
+        return n
+
+
 @implementer(IOpenSSLClientConnectionCreator, IOpenSSLServerConnectionCreator)
 class _Creator:
     def __init__(self, k, recMax):
         self.k, self.recMax = k, recMax
 
     def clientConnectionForTLS(self, proto):
-        return SSL.Connection(SSL.Context(flights=self.k, recMax=self.recMax), None)
+        return _Conn(SSL.Context(flights=self.k, recMax=self.recMax), proto.wrappedProtocol)
 
     serverConnectionForTLS = clientConnectionForTLS
 
@@ -122,20 +179,51 @@ class _App(Protocol):
         self.accepted = bytearray()  # what it wrote before that
         self.events = []
 
+    react = None                   # cfg "react"
+    reacted = 0                    # number of reactions so far ("every": the first 40 calls; bounds the amplification)
+    hsL = False                    # cfg "hsL"
+    clw = 0                        # cfg "clw"
+    offered = 0                    # every byte ever passed to transport.write/writeSequence (watchdog bound)
+
     def dataReceived(self, data):
         if self.lostN:
             self.late = 1
         self.rcvd += data
+        r = self.react
+        if r and (not self.reacted or (r.get("every") and self.reacted < 40)) and len(self.rcvd) >= r["at"]:
+            self.reacted += 1
+            if r.get("w"):
+                self.appWrite(pat(*r["w"]))
+            if r.get("L"):
+                self.appLose()
 
     def connectionLost(self, reason):
         self.lostN += 1
+        if self.clw and self.lostN == 1:
+            # the connection is gone: neither call may have any effect (nor raise); the bytes are NOT accepted
+            self.offered += self.clw
+            self.transport.write(pat(9, self.clw))
+            self.transport.loseConnection()
 
     producing = False              # a producer of this application is registered (writes stay legitimate after loseConnection)
 
     def appWrite(self, data):
+        self.offered += len(data)
         if not self.closed or self.producing:
             self.accepted += data
         self.transport.write(data)
+
+    def appWriteSeq(self, chunks, mode):
+        data = b"".join(chunks)
+        self.offered += len(data)
+        if not self.closed or self.producing:
+            self.accepted += data
+        seq = {"list": list, "tuple": tuple, "iter": iter, "gen": lambda c: (x for x in c)}[mode](chunks)
+        self.transport.writeSequence(seq)
+
+    def appLose(self):
+        self.closed = True
+        self.transport.loseConnection()
 
 
 @implementer(IHandshakeListener)
@@ -146,6 +234,8 @@ class _HsApp(_App):
         self.hsN += 1
         if self.hook is not None:
             self.appWrite(pat(*self.hook))
+        if self.hsL:
+            self.appLose()
 
 
 @implementer(IPushProducer)
@@ -170,15 +260,45 @@ class _Producer:
         self.stopped = True
 
 
+class _CoopCall:
+    """what the per-side cooperator scheduler returns (Cooperator only ever cancels it)"""
+
+    def __init__(self, q, f):
+        self.q, self.f = q, f
+        q.append(self)
+
+    def cancel(self):
+        if self in self.q:
+            self.q.remove(self)
+
+
+# _PullToPush.startStreaming() uses the GLOBAL cooperator (global reactor); here the pull loop of a non-streaming producer is
+# driven by the "T" steps of the side that registered it: one resumeProducing per tick (deterministic)
+_coopOf = [None]
+
+
+def _cooperate(iterator):
+    return _coopOf[0].cooperate(iterator)
+
+
+_producer_helpers.cooperate = _cooperate
+
+
 class World:
     def __init__(self, case):
         self.k = case["k"]
         self.app, self.tls, self.tr, self.clock = {}, {}, {}, {}
+        self.coopQ = {s: [] for s in SIDES}
+        self.coop = {s: Cooperator(terminationPredicateFactory=lambda: (lambda: True),
+                                   scheduler=lambda f, s=s: _CoopCall(self.coopQ[s], f)) for s in SIDES}
         for side in SIDES:
             cfg = case["cfg"][side]
             isClient = side == "c"
             app = (_HsApp if True else _App)(self, side)
             app.hook = cfg.get("hs")
+            app.hsL = bool(cfg.get("hsL"))
+            app.react = cfg.get("react")
+            app.clw = cfg.get("clw") or 0
             wf = Factory.forProtocol(lambda app=app: app)
             clock = Clock()
             f = TLSMemoryBIOFactory(_Creator(self.k, cfg["recMax"]), isClient, wf, clock)
@@ -206,11 +326,19 @@ class World:
         app, tls, tr = self.app[side], self.tls[side], self.tr[side]
         if kind == "W":
             app.appWrite(pat(op[2], op[3]))
+        elif kind == "S":
+            chunks, st = [], op[2]
+            for n in op[3]:
+                chunks.append(pat(st, n))
+                st += n
+            app.appWriteSeq(chunks, op[4])
         elif kind == "L":
-            if app.producing and not app.hsN:
-                return      # (discipline of the producer cases: no loseConnection before the handshake while a producer is registered)
-            app.closed = True
-            app.transport.loseConnection()
+            if app.producing and not app.hsN and not app.accepted:
+                # discipline of the producer cases: loseConnection before the handshake has finished with nothing written so far
+                # ABORTS the connection (documented), what the producer writes afterwards is legitimately lost.  With something
+                # written (still queued: the handshake is not over) it is an orderly close that waits for the producer.
+                return
+            app.appLose()
         elif kind == "D":
             peer = self.other(side)
             data = self.pending(peer)
@@ -222,6 +350,10 @@ class World:
             tr.bufferReceived(chunk)
         elif kind == "T":
             self.clock[side].advance(0)
+            for call in list(self.coopQ[side]):      # one work unit of the pull-producer loop, if any
+                if call in self.coopQ[side]:
+                    self.coopQ[side].remove(call)
+                    call.f()
         elif kind == "F":
             if tr.disconnecting and not tr.disconnected:
                 tr.disconnected = True
@@ -238,6 +370,7 @@ class World:
                 return
             p = _Producer(app, op[3], op[4], op[5])
             app.producing = True
+            _coopOf[0] = self.coop[side]
             app.transport.registerProducer(p, bool(op[2]))
             if tls._producer is None:      # refused (stopProducing was called): not registered
                 app.producing = False
@@ -249,6 +382,9 @@ class World:
         elif kind == "P":       # the reactor asks a pull producer / resumes a push producer of the lower transport
             if tr.producer is not None:
                 tr.producer.resumeProducing()
+        elif kind == "Z":       # the lower transport's send buffer is full: it pauses the producer registered with it
+            if tr.producer is not None:
+                tr.producer.pauseProducing()
         else:
             raise ValueError(kind)
 
@@ -267,7 +403,7 @@ class World:
                 return False
             if tr.disconnecting and not tr.disconnected:
                 return False
-            if self.clock[side].getDelayedCalls():
+            if self.clock[side].getDelayedCalls() or self.coopQ[side]:
                 return False
         return True
 
@@ -310,11 +446,36 @@ def run_impl(case):
 # model line
 
 def _has_producer(case):
-    return any(op[0] in "RUP" for op in case["ops"])
+    return any(op[0] in "RUPZ" for op in case["ops"])
+
+
+def _reentrant(case):
+    return any(case["cfg"][s].get(key) for s in SIDES for key in ("hsL", "react", "clw"))
+
+
+def _cap(recMax):
+    """keep the executable model fast: a write of n bytes through an engine with record limit r costs ~n*n/r list steps"""
+    return int((1.5e7 * recMax) ** 0.5)
+
+
+def _opsize(op):
+    return op[3] if op[0] == "W" else sum(op[3]) if op[0] == "S" else 0
+
+
+def _modelCap(recMax):
+    return int((2e7 * recMax) ** 0.5)        # 255 -> 71414: writes of 64000 / 64001 / 70000 at the full record size stay model-compared
+
+
+def _huge(case):
+    if case.get("nomodel"):          # (set by the generator on most huge-write cases: ~1 s of model time each)
+        return True
+    cap = {s: _modelCap(case["cfg"][s]["recMax"]) for s in SIDES}
+    return (any(_opsize(op) > cap[op[1]] for op in case["ops"])
+            or any((case["cfg"][s].get("hs") or [0, 0])[1] > cap[s] for s in SIDES))
 
 
 def model_line(case):
-    if _has_producer(case):
+    if _has_producer(case) or _reentrant(case) or _huge(case):
         return None
     cfg = []
     for s in SIDES:
@@ -323,6 +484,8 @@ def model_line(case):
         cfg.append(f"{1 if c['buf'] else 0},{c['recMax']}," + (f"{hs[0]},{hs[1]}" if hs else "-"))
     ops = []
     for op in case["ops"]:
+        if op[0] == "S":        # writeSequence of contiguous pattern chunks == one write of the whole pattern
+            op = ["W", op[1], op[2] % 256, sum(op[3])]
         ops.append(",".join(str(x) for x in op))
     return f"run {case['k']} {cfg[0]} {cfg[1]} {1 if case.get('drain', True) else 0} " + (";".join(ops) if ops else "-")
 
@@ -400,6 +563,36 @@ def corpus():
     # loseConnection while a producer is registered, the producer's last write sits in the aggregator at unregisterProducer
     c.append({"k": 2, "cfg": {"c": _cfg(), "s": _cfg()},
               "ops": [["D", "s", 99], ["D", "c", 99], ["R", "s", 1, 0, 50, 0], ["L", "s"], ["W", "s", 7, 5], ["U", "s"]], "drain": True})
+    big = 1 << 20
+    hsk = [["D", "s", big], ["D", "c", big]] * 3            # enough for k <= 5
+    # --- classes added by the white-box mutation audit (harness/mutants/C17) ---
+    # writeSequence behind a small write that still sits in the aggregator (order), list and one-shot iterables, leading empty chunk
+    c.append({"k": 2, "cfg": {"c": _cfg(), "s": _cfg()}, "ops": hsk + [["W", "c", 0, 10], ["S", "c", 10, [10, 10], "list"]], "drain": True})
+    c.append({"k": 2, "cfg": {"c": _cfg(False), "s": _cfg()}, "ops": hsk + [["S", "c", 0, [0, 10, 20], "gen"]], "drain": True})
+    c.append({"k": 4, "cfg": {"c": _cfg(), "s": _cfg(False)}, "ops": [["S", "s", 5, [0, 0, 7], "iter"], ["S", "c", 0, [], "gen"], ["S", "c", 9, [3], "tuple"]], "drain": True})
+    # one write larger than the aggregator's MAX_BUFFER_SIZE behind a small one (model-compared: 64001 <= _modelCap(255))
+    c.append({"k": 2, "cfg": {"c": _cfg(), "s": _cfg()}, "ops": hsk + [["W", "c", 220, 1], ["W", "c", 162, 64001]], "drain": True})
+    c.append({"k": 2, "cfg": {"c": _cfg(True, 100), "s": _cfg()}, "ops": hsk + [["W", "c", 1, 10], ["W", "c", 11, 130000]], "drain": True})
+    # orderly loseConnection during the handshake (something is queued) while a producer is registered; the producer goes on afterwards
+    c.append({"k": 4, "cfg": {"c": _cfg(), "s": _cfg()},
+              "ops": [["R", "c", 1, 50, 100, 2], ["W", "c", 0, 10], ["T", "c"], ["L", "c"]] + hsk + [["W", "c", 7, 5], ["U", "c"]], "drain": True})
+    c.append({"k": 4, "cfg": {"c": _cfg(False), "s": _cfg()},
+              "ops": [["R", "c", 0, 50, 100, 3], ["W", "c", 0, 10], ["L", "c"]] + hsk + [["T", "c"], ["T", "c"], ["U", "c"]], "drain": True})
+    # a streaming producer paused by a write queued during the handshake is resumed when the queue has been replayed (order)
+    c.append({"k": 4, "cfg": {"c": _cfg(False), "s": _cfg()}, "ops": [["R", "c", 1, 50, 100, 2], ["W", "c", 0, 10]] + hsk + [["U", "c"]], "drain": True})
+    # a pull producer, really pulled (one chunk per tick), paused / resumed by the lower transport
+    c.append({"k": 2, "cfg": {"c": _cfg(), "s": _cfg()},
+              "ops": hsk + [["R", "s", 0, 3, 300, 3], ["T", "s"], ["Z", "s"], ["T", "s"], ["P", "s"], ["T", "s"], ["T", "s"], ["L", "s"], ["T", "s"], ["U", "s"]], "drain": True})
+    # handshakeCompleted writes and closes while writes queued during the handshake are still waiting
+    c.append({"k": 4, "cfg": {"c": dict(_cfg(False, 255, [100, 5]), hsL=True), "s": _cfg(False)}, "ops": [["W", "c", 0, 10]], "drain": True})
+    c.append({"k": 3, "cfg": {"c": _cfg(), "s": dict(_cfg(True, 16, [100, 300]), hsL=True)}, "ops": [["W", "s", 0, 10], ["T", "s"], ["W", "s", 10, 7]], "drain": True})
+    # request / response: the reply is written (and the connection closed) from dataReceived; replies larger than 1, 2, 3 reads of the send BIO
+    for buf, n, L in ((False, 33000, False), (False, 100000, True), (True, 70000, False), (True, 300, True)):
+        c.append({"k": 2, "cfg": {"c": _cfg(), "s": dict(_cfg(buf), react={"at": 1, "w": [0, n], "L": L, "every": False})},
+                  "ops": hsk + [["W", "c", 3, 5], ["T", "c"], ["D", "s", big]], "drain": True})
+    # echo of every segment, byte-wise delivery; write + loseConnection from connectionLost are void
+    c.append({"k": 2, "cfg": {"c": dict(_cfg(), clw=300), "s": dict(_cfg(False), react={"at": 1, "w": [7, 5], "L": False, "every": True}, clw=1)},
+              "ops": hsk + [["W", "c", 3, 600], ["T", "c"]] + [["D", "s", 100]] * 8 + [["L", "c"]], "drain": True})
     return c
 
 
@@ -414,7 +607,36 @@ def _size(rng):
     return rng.choice([63999, 64000, 64001, 70000])
 
 
-def _case(rng, tier, producers=False):
+def _seqop(rng, s, start, n):
+    """a writeSequence of contiguous chunks of pat(start, n): empty chunks, one chunk, many chunks; list / tuple / one-shot iterables"""
+    r = rng.random()
+    if n == 0 or r < 0.15:
+        parts = [n]
+    else:
+        cuts = sorted(rng.randint(0, n) for _ in range(rng.choice([1, 1, 2, 3, 6])))
+        parts = [b - a for a, b in zip([0] + cuts, cuts + [n])]
+    if rng.random() < 0.4:
+        parts.insert(rng.randint(0, len(parts)), 0)
+    if rng.random() < 0.25:
+        parts.insert(0, 0)          # leading empty chunk
+    if rng.random() < 0.05:
+        parts = [x for x in parts if x] if rng.random() < 0.5 else []
+        n = sum(parts)
+    return ["S", s, start, parts, rng.choice(["list", "list", "tuple", "gen", "gen", "iter"])]
+
+
+def _react(rng, hugeOK):
+    # (a reply larger than one / two / three 2**15-byte reads of the send BIO, written while _flushReceiveBIO is delivering)
+    sizes = [1, 5, 300, 300, 17000, 33000, 40000, 70000, 100000]
+    w = [rng.randrange(256), rng.choice(sizes)] if rng.random() < 0.8 else None
+    L = rng.random() < (0.5 if w else 1.0)
+    every = rng.random() < 0.25
+    if every and w and w[1] > 300:
+        w[1] = rng.choice([1, 5, 300])
+    return {"at": rng.choice([1, 1, 1, 2, 10, 300]), "w": w, "L": L, "every": every}
+
+
+def _case(rng, tier, producers=False, seq=False, reentrant=False, huge=False):
     k = rng.choice([2, 2, 3, 4, 4, 5, 6])
     cfg = {}
     for s in SIDES:
@@ -440,7 +662,12 @@ def _case(rng, tier, producers=False):
                 big += 1
                 if big > 2:
                     sz = sz % 300
-            ops.append(["W", s, rng.randrange(256), sz])
+            if huge and sz > 2000 and rng.random() < 0.7:
+                sz = rng.choice([64000, 64001, 64001, 70000, 100000, 130000])
+            if seq and rng.random() < 0.5:
+                ops.append(_seqop(rng, s, rng.randrange(256), sz))
+            else:
+                ops.append(["W", s, rng.randrange(256), sz])
         elif r < 0.7:
             seg = {"all": 1 << 20, "small": rng.randint(1, 4), "mixed": rng.choice([1, 2, 3, 7, 100, 1 << 20])}[segmode]
             ops.append(["D", s, seg])
@@ -456,26 +683,90 @@ def _case(rng, tier, producers=False):
             ops.append(["L", s])
         if producers and rng.random() < 0.25:
             ops.append(rng.choice([["R", s, rng.choice([0, 1]), rng.randrange(256), rng.choice([1, 50, 300, 17000]), rng.randint(0, 4)],
-                                   ["U", s], ["P", s], ["P", s]]))
-    # keep the executable model fast: a write of n bytes through an engine with record limit r costs ~n*n/r list steps
-    cap = {s: int((1.5e7 * cfg[s]["recMax"]) ** 0.5) for s in SIDES}
-    for op in ops:
-        if op[0] == "W" and op[3] > cap[op[1]]:
-            op[3] %= 1200
-        if op[0] == "R" and op[4] > cap[op[1]]:
-            op[4] %= 1200
-    for s in SIDES:
-        if cfg[s]["hs"] and cfg[s]["hs"][1] > cap[s]:
-            cfg[s]["hs"][1] %= 1200
+                                   ["U", s], ["P", s], ["P", s], ["Z", s], ["Z", s], ["T", s]]))
+    if huge:
+        for s in SIDES:             # (wall time of the real code: a huge write costs len/recMax engine calls)
+            cfg[s]["recMax"] = max(cfg[s]["recMax"], 16)
+            if cfg[s]["hs"] and rng.random() < 0.3:
+                cfg[s]["hs"][1] = rng.choice([64000, 64001, 70000])
+        if not any(_opsize(op) >= 64000 for op in ops):
+            s = rng.choice(SIDES)
+            i = rng.randint(0, len(ops))
+            ops[i:i] = [["W", s, rng.randrange(256), rng.choice([1, 10, 300])], ["W", s, rng.randrange(256), rng.choice([64000, 64001, 70000, 130000])]]
+    else:
+        # keep the executable model fast: a write of n bytes through an engine with record limit r costs ~n*n/r list steps
+        cap = {s: _cap(cfg[s]["recMax"]) for s in SIDES}
+        for op in ops:
+            if op[0] == "W" and op[3] > cap[op[1]]:
+                op[3] %= 1200
+            if op[0] == "S" and sum(op[3]) > cap[op[1]]:
+                op[3] = [x % 1200 for x in op[3]]
+            if op[0] == "R" and op[4] > cap[op[1]]:
+                op[4] %= 1200
+        for s in SIDES:
+            if cfg[s]["hs"] and cfg[s]["hs"][1] > cap[s]:
+                cfg[s]["hs"][1] %= 1200
+    if producers and rng.random() < 0.6:
+        # a producer registered early (mostly before the handshake is over) that has something to say, and a write behind it
+        s = rng.choice(SIDES)
+        ops[0:0] = [["R", s, rng.choice([0, 1]), rng.randrange(256), rng.choice([1, 50, 300, 17000]), rng.randint(1, 4)]]
+        ops.insert(rng.randint(1, min(len(ops), 4)), ["W", s, rng.randrange(256), rng.choice([1, 5, 300])])
+        if rng.random() < 0.5:
+            ops.insert(rng.randint(1, len(ops)), ["T", s])
+        if rng.random() < 0.4:      # orderly close requested while the handshake is still running and the producer registered
+            ops.insert(rng.randint(2, min(len(ops), 5)), ["L", s])
+        if rng.random() < 0.6:      # ... and the producer goes on after the handshake (pull producers: one chunk per tick)
+            ops += [["D", "s", 1 << 20], ["D", "c", 1 << 20]] * ((k + 1) // 2 + 1) + [["T", s]] * rng.randint(1, 3)
+            if rng.random() < 0.5:
+                ops.append(["W", s, rng.randrange(256), rng.choice([1, 5, 300])])
+    rr = None
+    if reentrant:
+        if rng.random() < 0.5:      # request/response shape: handshake, a request, and the other side answers from dataReceived
+            rr = rng.choice(SIDES)
+            o = "s" if rr == "c" else "c"
+            if rng.random() < 0.4:  # ... and nothing else happens (whatever the reply left behind stays where it is)
+                del ops[:]
+            ops[0:0] = ([["D", "s", 1 << 20], ["D", "c", 1 << 20]] * ((k + 1) // 2 + 1)
+                        + [["W", o, rng.randrange(256), rng.choice([1, 5, 300, 1200])], ["T", o], ["D", rr, 1 << 20]])
+        some = False
+        for s in SIDES:
+            if rng.random() < (0.45 if rr is None else 0.08):
+                cfg[s]["hsL"] = True
+                if cfg[s]["hs"] is None and rng.random() < 0.6:
+                    cfg[s]["hs"] = [rng.randrange(256), rng.choice([1, 5, 300])]
+                some = True
+            if rng.random() < 0.6 or s == rr:
+                cfg[s]["react"] = _react(rng, False)
+                if s == rr and rng.random() < 0.5:
+                    cfg[s]["react"].update(w=[rng.randrange(256), rng.choice([33000, 40000, 70000, 100000])], every=False)
+                some = True
+            if rng.random() < 0.2:
+                cfg[s]["clw"] = rng.choice([1, 300])
+                some = True
+        if not some:
+            cfg[rng.choice(SIDES)]["react"] = _react(rng, False)
+        for s in SIDES:             # (wall time of the real code: a large reply costs len/recMax engine calls)
+            if cfg[s].get("react") and cfg[s]["react"]["w"] and cfg[s]["react"]["w"][1] > 20000:
+                cfg[s]["recMax"] = max(cfg[s]["recMax"], 16)
+        # somebody has to say something for a dataReceived reaction to run
+        if not any(op[0] in "WS" for op in ops) and not any(cfg[s]["hs"] for s in SIDES):
+            ops.insert(rng.randint(0, len(ops)), ["W", rng.choice(SIDES), rng.randrange(256), rng.choice([1, 5, 300, 1200])])
     return {"k": k, "cfg": cfg, "ops": ops, "drain": rng.random() < 0.85}
 
 
 def generate(rng, tier):
     n = 900 if tier == "quick" else 16000
     for i in range(n):
-        yield _case(rng, tier)
-    for i in range(n // 6):
-        c = _case(rng, tier, producers=True)
+        yield _case(rng, tier, seq=(i % 5 < 2))         # 40%: half of the writes are writeSequence calls (model-compared)
+    for i in range(n // 3):
+        yield _case(rng, tier, reentrant=True, seq=(i % 4 == 0))
+    for i in range(n // (12 if tier == "quick" else 40)):     # (wall time: ~50 ms of real code, ~1 s of model time each)
+        c = _case(rng, tier, huge=True, seq=(i % 3 == 0))
+        if i % 8:
+            c["nomodel"] = True
+        yield c
+    for i in range(n // 4):
+        c = _case(rng, tier, producers=True, seq=(i % 4 == 0))
         # a producer may be registered only once at a time: keep the schedule legal
         seen = {s: False for s in SIDES}
         ops = []
@@ -496,7 +787,7 @@ def generate(rng, tier):
 
 def search(rng, tier, disagreeing):
     for i in range(3000):
-        yield _case(rng, "quick")
+        yield _case(rng, "quick", seq=(i % 2 == 0))
 
 
 def shrink(case):
@@ -508,12 +799,25 @@ def shrink(case):
         if op[0] == "W" and op[3] > 1:
             for m in (op[3] // 2, op[3] - 1):
                 yield dict(case, ops=ops[:i] + [[op[0], op[1], op[2], m]] + ops[i + 1:])
+        if op[0] == "S":
+            if len(op[3]) > 1:
+                for j in range(len(op[3])):
+                    yield dict(case, ops=ops[:i] + [[op[0], op[1], op[2], op[3][:j] + op[3][j + 1:], op[4]]] + ops[i + 1:])
+            for j, m in enumerate(op[3]):
+                if m > 1:
+                    yield dict(case, ops=ops[:i] + [[op[0], op[1], op[2], op[3][:j] + [m // 2] + op[3][j + 1:], op[4]]] + ops[i + 1:])
     for s in SIDES:
         c = case["cfg"][s]
         if c.get("hs") and c["hs"][1] > 1:
             yield dict(case, cfg=dict(case["cfg"], **{s: dict(c, hs=[c["hs"][0], c["hs"][1] // 2])}))
         if c.get("hs"):
             yield dict(case, cfg=dict(case["cfg"], **{s: dict(c, hs=None)}))
+        for key in ("hsL", "react", "clw"):
+            if c.get(key):
+                yield dict(case, cfg=dict(case["cfg"], **{s: dict(c, **{key: None})}))
+        r = c.get("react")
+        if r and r.get("w") and r["w"][1] > 1:
+            yield dict(case, cfg=dict(case["cfg"], **{s: dict(c, react=dict(r, w=[r["w"][0], r["w"][1] // 2]))}))
     if case["k"] > 2:
         yield dict(case, k=case["k"] - 1)
 
@@ -521,7 +825,13 @@ def shrink(case):
 def tag(case, out):
     ops = case["ops"]
     closers = "".join(sorted({op[1] for op in ops if op[0] == "L"}))
-    sizes = {("0" if op[3] == 0 else "s" if op[3] <= 255 else "m" if op[3] <= 16384 else "l" if op[3] <= 64000 else "x") for op in ops if op[0] == "W"}
+    sizes = {("0" if n == 0 else "s" if n <= 255 else "m" if n <= 16384 else "l" if n <= 64000 else "x")
+             for n in (_opsize(op) for op in ops if op[0] in "WS")}
+    extra = ("S" + "".join(sorted({op[4][0] for op in ops if op[0] == "S"})) if any(op[0] == "S" for op in ops) else "") + \
+        "".join(("H" if case["cfg"][s].get("hsL") else "") + ("C" if case["cfg"][s].get("clw") else "") +
+                ("r" + ("w" if case["cfg"][s]["react"].get("w") else "") + ("L" if case["cfg"][s]["react"].get("L") else "") +
+                 ("e" if case["cfg"][s]["react"].get("every") else "") if case["cfg"][s].get("react") else "") for s in SIDES) + \
+        ("Z" if any(op[0] == "Z" for op in ops) else "") + ("q" if any(op[0] == "R" and not op[2] for op in ops) else "")
     fin = ",".join(p.split(",l=")[1][:1] + p.split("tg=")[1][:1] for p in out.split(" ")) if not out.startswith("!") else out
     kinds = "".join("B" if case["cfg"][s]["buf"] else "P" for s in SIDES) + "".join("h" if case["cfg"][s].get("hs") else "-" for s in SIDES)
-    return f"k{case['k']}:{kinds}:L{closers}:{''.join(sorted(sizes))}:{'d' if case.get('drain', True) else 'n'}:{'p' if _has_producer(case) else ''}:{fin}"
+    return f"k{case['k']}:{kinds}:L{closers}:{''.join(sorted(sizes))}:{'d' if case.get('drain', True) else 'n'}:{'p' if _has_producer(case) else ''}{extra}:{fin}"
